@@ -111,3 +111,22 @@ Theorem C19_registry_atomic : forall s0 basedir chunks k,
   ((List.length (registry_ops basedir chunks) <= k)%nat -> look s final = VFile (concat chunks) /\ names s tmp = None).
 Proof. exact registry_atomic. Qed.
 Print Assumptions C19_registry_atomic.
+
+(* ... and the same when an operation of the rewrite FAILS (EACCES, EROFS, ENOSPC, EIO, ENOENT: the k-th system call raises
+   instead of being performed) rather than the process dying: still the complete old or the complete new version *)
+Theorem C19_registry_fault_atomic : forall s0 basedir chunks k,
+  let final := registry_final basedir in
+  let tmp := final ++ registry_tmp_ext in
+  wf_st s0 -> unshared s0 tmp -> clean s0 -> no_link_at s0 tmp -> no_dir_at s0 tmp -> no_dir_at s0 final ->
+  let s := run_fault k s0 (registry_ops basedir chunks) in
+  look s final = look s0 final \/ look s final = VFile (concat chunks).
+Proof. exact registry_fault_atomic. Qed.
+Print Assumptions C19_registry_fault_atomic.
+
+(* a "remove the destination and rename again" fallback in move_into_place would break it (seeded change C19-r4s1) *)
+Theorem C19_rename_retry_refuted :
+  let s0 := mk_st [([47; 114]%N, F 0%nat); ([47; 116]%N, F 1%nat)] [[111]%N; [110]%N] in
+  look (step_fault s0 (RenameRetry [47; 116]%N [47; 114]%N)) [47; 114]%N = VNone /\
+  look (step_fault s0 (Rename [47; 116]%N [47; 114]%N)) [47; 114]%N = VFile [111]%N.
+Proof. exact rename_retry_loses_registry. Qed.
+Print Assumptions C19_rename_retry_refuted.
